@@ -158,6 +158,50 @@ def fail_map(tid, storage, use_exec, fname, k, kind, c0, c1, n0, n1, n2, *vals):
         L.cleanup_dirs()
 
 
+def fail_twice(storage, v0, v1, kind):
+    """two failing maps on the same pipeline object: the snapshot describes the most recent failure"""
+    L.reset()
+    t = T["T1"]
+    kind = L.concretize(kind, 0, 2)
+    v0, v1 = L.concretize(v0, 0, 1), L.concretize(v1, 0, 1)
+    if v0 == v1:
+        return True
+    try:
+        with NoTracing():
+            from engine import shims
+
+            shims.TOK.clear()
+            log = tmpl.Log()
+            plan = FailPlan("f", 1, kind)
+            p = tmpl.make_pipeline(t.funcs, log, fail_at=plan)
+            folder = L.scratch_dir() if storage != "dict" else None
+        for k_fail, xfail in ((1, v0), (2, v1)):
+            with NoTracing():
+                plan.k, plan.count, plan.armed, plan.failed_args = k_fail, 0, True, None
+            try:
+                p.map({"x": [v0, v1]}, run_folder=folder, storage=storage, parallel=False)
+                return fail("failure swallowed")
+            except Exception as e:  # noqa: BLE001
+                if type(e) is not type(_exc(kind)):
+                    return fail("exception type changed")
+            snap = p.error_snapshot
+            if snap is None:
+                return fail("no snapshot")
+            if snap.kwargs.get("x") != xfail:
+                return fail("the snapshot describes an earlier failure, not the failing invocation")
+            with NoTracing():
+                plan.armed = False
+            try:
+                snap.reproduce()
+                return fail("reproduce() did not raise")
+            except Exception as e2:  # noqa: BLE001
+                if type(e2) is not type(_exc(kind)):
+                    return fail("reproduce() raised something else")
+        return True
+    finally:
+        L.cleanup_dirs()
+
+
 def fail_run(rid, out, fname, kind, v0, v1, v2, v3, v4, v5):
     """pipeline(out, **roots) with function `fname` raising"""
     L.reset()
@@ -227,14 +271,13 @@ def obligations(tier):
     cases = [
         ("T1", "f", ["dict", "file_array"]),
         ("T4", "f", ["dict"]),
-        ("T4", "g", ["file_array"]),
         ("T8", "f", ["file_array"]),
         ("T8", "h", ["dict"]),
         ("T13", "pre", ["dict"]),
         ("T13", "f", ["file_array"]),
     ]
     if thorough:
-        cases += [("T4", "n", ["dict"]), ("T4", "h", ["dict", "file_array"]), ("T12", "h", ["dict", "file_array"]), ("T12", "k", ["dict"]), ("T5", "tot", ["file_array"]), ("T17", "g", ["dict"])]
+        cases += [("T4", "g", ["file_array"]), ("T4", "n", ["dict"]), ("T4", "h", ["dict", "file_array"]), ("T12", "h", ["dict", "file_array"]), ("T12", "k", ["dict"]), ("T5", "tot", ["file_array"]), ("T17", "g", ["dict"])]
     for tid, fname, storages in cases:
         t = T[tid]
         for st in storages:
@@ -245,7 +288,8 @@ def obligations(tier):
                     Ob(
                         f"failmap_{tid}_{fname}_{st}_{'exec' if use_exec else 'seq'}",
                         [("k", I), ("kind", I), ("c0", I), ("c1", I), ("n0", I), ("n1", I), ("n2", I)] + VP,
-                        ["1 <= k <= 5", "0 <= kind <= 2", "0 <= c0 <= 2 and 0 <= c1 <= 2" if use_exec else "c0 == 0 and c1 == 0", vpre] + tmpl.size_pre(t, 2),
+                        ["1 <= k <= 5" if (thorough or not use_exec) else "1 <= k <= 3", "0 <= kind <= 2", "0 <= c0 <= 2 and 0 <= c1 <= 2" if use_exec else "c0 == 0 and c1 == 0", vpre]
+                        + (tmpl.size_pre(t, 2) if (thorough or not use_exec) else [" and ".join(f"n{a} == {2 if a < t.axes else 1}" for a in range(3))]),
                         f"H.fail_map({tid!r}, {st!r}, {use_exec}, {fname!r}, k, kind, c0, c1, n0, n1, n2, {', '.join(n for n, _ in VP)})",
                         timeout=500 if not thorough else 1500,
                         flags=("tokpickle",),
@@ -254,6 +298,11 @@ def obligations(tier):
                         canaries=("runtimeerror_swallowed_in_map",) if (tid, fname, st, use_exec) == ("T1", "f", "dict", False) else (),
                     )
                 )
+    for st in ("dict", "file_array"):
+        obs.append(
+            Ob(f"failtwice_{st}", [("v0", I), ("v1", I), ("kind", I)], ["0 <= v0 <= 1 and 0 <= v1 <= 1", "0 <= kind <= 2"], f"H.fail_twice({st!r}, v0, v1, kind)",
+               timeout=200, flags=("tokpickle",), bounds=f"two failing maps on one pipeline object ({st}), different failing invocation, same exception kind")  # fmt: skip
+        )
     for rid, out, fnames in (("R1", "e", ["f", "g", "h"]), ("R2", "e", ["f", "h", "k"]), ("R3", "z", ["g", "k"]), ("R7", "s", ["f"])):
         for fname in fnames:
             obs.append(
